@@ -4,7 +4,9 @@ from ..rules import pC37, sC37
 ID = 'C37'
 TECHNIQUE = ('table agreement between the writer and the readers of the shared exit code (extracted from get_all_labels(), the emitted C templates and the '
              'case dispatch), slot-wise save/restore resolution of the label context, must-precede dataflow over the generate_execution_code methods, '
-             'bracket/region analysis of the exception hand-off, stack-depth dataflow of the assignment collector')
+             'bracket/region analysis of the exception hand-off, stack-depth dataflow of the assignment collector; decision tables of trap_parallel_exit / '
+             'end_parallel_control_flow_block obtained by interpreting their code in the checker over the complete domain (construct x set of exit kinds used); '
+             'C-semantics evaluation of the extracted trip-count / loop-header / index expressions over all residue classes of small strides')
 DECIDES = ('C37-WHY: the exit code trap_parallel_exit stores into parallel_why for each of continue/break/return/error (index in FunctionState.get_all_labels() '
            'order + the offset in the emitted `%d`) equals the `case N:` that end_parallel_control_flow_block dispatches to that kind of label; codes are distinct and '
            'non-zero; the "prefer error" store after `if (parallel_exc_type)` writes the error code; every emitted `if (parallel_why <op> N)` guard runs its body '
@@ -19,13 +21,26 @@ DECIDES = ('C37-WHY: the exit code trap_parallel_exit stores into parallel_why f
            'gotref/giveref mirror each other around the transfer, position info is saved by fetch and copied back by restore. '
            'C37-STK: MarkParallelAssignments.visit_ParallelStatNode pushes/pops parallel_block_stack balanced on every path, visits children while pushed and the prange '
            'else clause after the pop. '
-           'C37-RED: operators turned into reduction(op:var) are implicitly declared OpenMP reduction identifiers whose combiner equals the in-place operator.')
+           'C37-RED: operators turned into reduction(op:var) are implicitly declared OpenMP reduction identifiers whose combiner equals the in-place operator. '
+           'C37-EMIT (sa/rules/sC37.py): for ParallelWithBlockNode and ParallelRangeNode x each of the 16 sets U of exit kinds the body may use, trap_parallel_exit and '
+           'end_parallel_control_flow_block are interpreted (flags, call-site arguments and emitted C text resolved per world): whenever some label stores into '
+           'parallel_why the variable is declared and zeroed; whenever the error label is trapped the shared exception slots are declared and `case <error>` + '
+           'restore_parallel_exception is emitted; whenever the error label and another storing label are trapped the `if (exc_type) why = <error>` fix-up is emitted; '
+           'the `if (why < N)` guards of the prange body / else clause are emitted whenever a breaking exit is trapped. '
+           'C37-TRIP (sa/rules/sC37.py): start/stop/step are stored under their own keys of the format dict with defaults 0/-/1; for the step absent, a literal or a run-time '
+           'value in {+-1, +-2, +-3, +-5}, every path of generate_execution_code (Python-level special-casing on the step included) emits an nsteps computation which, '
+           'with the `if (nsteps > 0)` guard, the emitted for header and the emitted index formula, runs exactly the iterations of range(start, stop, step) for every '
+           'distance in [-3|step|-2, 3|step|+2] (all residues, empty and reversed ranges) - so reductions see every term and the lastprivate index ends at the last index.')
 NOT_DECIDED = ('everything schedule-dependent: that reductions/lastprivate give sequential results for every thread count, schedule and chunk size; the nsteps/index '
-               'arithmetic (numeric); absence of data races in user bodies; the OpenMP flush placement; privatisation of temporaries (privatize_temps) and of closure '
+               'arithmetic for strides beyond the enumerated moduli and for C integer overflow / the int-typed abs() on wide index types; absence of data races in user bodies; the OpenMP flush placement; privatisation of temporaries (privatize_temps) and of closure '
                'variables; which of several simultaneously raised exceptions wins.  The LIFO order of GIL vs free-threading lock is not required (only that the '
                'transfer is inside both).  The firstprivate/lastprivate clause emission is not checked (it could only be matched as frozen text).')
 ASSUMPTIONS = ['CCodeWriter label accessors forward to FunctionState (checked, ANALYSIS-ERROR otherwise)',
-               'OpenMP reduction identifiers: OpenMP 5.2 section 5.5.5, implicitly declared identifiers for C/C++ (frozen in sa/rules/pC37.py)']
+               'OpenMP reduction identifiers: OpenMP 5.2 section 5.5.5, implicitly declared identifiers for C/C++ (frozen in sa/rules/pC37.py)',
+               'C37-EMIT: an unknown iterable is taken to run its loop body zero times or once; helper methods that mention parallel_why/parallel_exc are interpreted '
+               'in place when they have a single path, otherwise an unmet obligation is reported as ANALYSIS-ERROR, not as a violation',
+               'C37-TRIP: the value of the format-dict entry %(x)s is the C value of prange argument x (checked through the zip() that fills it); a literal step has '
+               'has_constant_result() true and constant_result = its value, a run-time step has has_constant_result() false']
 EXEMPT = {}
 
 # Single-edit variants tried on a scratch copy: (file, edit, rule/construct that reported it).  All 27 breaking edits were
@@ -59,6 +74,22 @@ MUTATIONS = [
     ('Cython/Compiler/TypeInference.py', 'visit_ParallelStatNode: delete the pop in the non-prange branch', 'C37-STK stk:visit_ParallelStatNode'),
     ('Cython/Compiler/Nodes.py', 'generate_loop: reduction operators "+*-&^|" -> "+*-&^|/"', 'C37-RED red:/'),
 ]
+MUTATIONS += [   # strengthening round (seeds C37a / C37b): all reported with exit 1
+    ('Cython/Compiler/Nodes.py', 'seed C37a: constant negative step uses `(start - stop) / (-(step))`', 'C37-TRIP trip:literal'),
+    ('Cython/Compiler/Nodes.py', 'generate_loop: `%(i)s < %(nsteps)s` -> `<=`', 'C37-TRIP trip:absent/literal/runtime'),
+    ('Cython/Compiler/Nodes.py', 'generate_loop: index `start + step * i` -> `start + step * (i + 1)`', 'C37-TRIP trip:*'),
+    ('Cython/Compiler/Nodes.py', 'nsteps formula without the rounding term: `(stop - start) / step`', 'C37-TRIP trip:literal, trip:runtime'),
+    ('Cython/Compiler/Nodes.py', '`if (%(nsteps)s > 0)` -> `> 1`', 'C37-TRIP trip:*'),
+    ('Cython/Compiler/Nodes.py', "self.names = 'stop', 'start', 'step'", 'C37-TRIP trip:operand:start, trip:operand:stop'),
+    ('Cython/Compiler/Nodes.py', "defaults = '1', '0', '1'", 'C37-TRIP trip:operand:start'),
+    ('Cython/Compiler/Nodes.py', 'seed C37b: prefer-error fix-up only `if continue_ or break_ or return_:`', 'C37-EMIT emit:prefer-error:ParallelRangeNode (U={break,error})'),
+    ('Cython/Compiler/Nodes.py', 'end block: `any_label_used = self.breaking_label_used` -> `self.return_label_used`', 'C37-EMIT emit:decl:*, emit:exc-dispatch:*'),
+    ('Cython/Compiler/Nodes.py', 'generate_loop: body guard emitted under `if self.return_label_used:`', 'C37-EMIT emit:guard:ParallelRangeNode.generate_loop'),
+    ('Cython/Compiler/Nodes.py', 'generate_execution_code: else guard emitted under `if self.return_label_used:`', 'C37-EMIT emit:guard:ParallelRangeNode.generate_execution_code'),
+    ('Cython/Compiler/Nodes.py', 'end block: exception slots + fix-up under `if self.error_label_used and return_:`', 'C37-EMIT emit:exc-decl:*, emit:prefer-error:*'),
+    ('Cython/Compiler/Nodes.py', 'end block: restore_parallel_exception emitted before `case 4:`', 'C37-EMIT emit:exc-dispatch:* (and C37-WHY why:error:restore)'),
+    ('Cython/Compiler/Nodes.py', 'trap: `label != code.continue_label` -> `label == code.break_label` (breaking flag)', 'C37-EMIT emit:decl, emit:exc-dispatch, emit:guard'),
+]
 SILENT_EDITS = [   # behaviour-preserving, all stayed silent (exit 0)
     '`i + 1` -> `1 + i`; `enumerate(all_labels, 1)` with `i = idx - 1`',
     'body guard "< 2" -> "<= 1"',
@@ -68,6 +99,14 @@ SILENT_EDITS = [   # behaviour-preserving, all stayed silent (exit 0)
     'reformat the parallel_exc tuple; swap its first two elements (both transfer calls use the same tuple)',
     'reorder the two label_used() reads in ParallelWithBlockNode',
     'rename local all_labels and parameter break_ (all sites); move restore_parallel_exception above fetch_parallel_exception',
+    # strengthening round, C37-TRIP / C37-EMIT stayed silent on:
+    'nsteps formula with reordered summands `(step - step/abs(step) + stop - start) / step`',
+    '`if (nsteps > 0)` -> `>= 1`; for header `i++` -> `++i`; index emission as an f-string over fmt_dict[...] with the factors swapped',
+    'correct special-casing of constant steps (`(stop-start+step-1)/step` for literal step > 0, `(start-stop-step-1)/(-(step))` for literal step < 0, general formula otherwise)',
+    'nsteps computed by two emitted statements (`nsteps = stop - start + step; nsteps = (nsteps - step/abs(step)) / step;`)',
+    '`if continue_: any = ... else: any = ...` -> conditional expression; `if self.error_label_used:` -> `if not (not self.error_label_used or False):`',
+    'declaration of parallel_why via f-strings and a local holding Naming.parallel_why; else guard through a local flag and `<= 1`',
+    'prefer-error fix-up moved into a helper method self._prefer_error(code) (C37-EMIT silent; the older C37-WHY why:prefer-error does fire on this one)',
 ]
 
 
